@@ -293,9 +293,8 @@ def certify(ctx, case, seed):
         if a not in atoms:
             atoms.append(a)
     for _ in range(12):
-        names = rng.sample(gen.RENAME_POOL, len(atoms))
         variants.append(c06.string_presentation(
-            case, rng, dict(zip(atoms, names))))
+            case, rng, gen.rename_map(rng, atoms)))
     items = [[case, p] for p in variants]
     nseeds = CERT_SEEDS[ctx['tier']]
     seeds = [0] + [rng.randrange(1, 2 ** 32) for _ in range(nseeds - 1)]
@@ -483,7 +482,7 @@ def stage2_batch(verif_seed, tier, b, ncases):
         amap = None
         if rng.random() < 0.5:
             atoms = gen.ATOM_POOL[:cfg['natoms']]
-            amap = dict(zip(atoms, rng.sample(gen.RENAME_POOL, len(atoms))))
+            amap = gen.rename_map(rng, atoms)
         pres = c06.string_presentation(case, rng, amap)
         if rng.random() < 0.5:
             rng.shuffle(pres['S'])
